@@ -2,6 +2,7 @@
 """tools/mkgaps.py <Cxx>: assembles /tmp/b/<Cxx>/GAPS.md (audit section + missed seeds) and copies the missed seeds"""
 import glob, json, os, re, shutil, sys
 P = sys.argv[1]
+NO_AUDIT = "--no-audit" in sys.argv
 D = f"/tmp/b/{P}"
 out = [f"# Gaps to close for {P}\n"]
 STATUS = json.load(open("/verif/seeded/STATUS.json")) if os.path.exists("/verif/seeded/STATUS.json") else {}
@@ -32,14 +33,16 @@ for sid, verdict, m in missed:
                f"**change:** {m.get('summary','')}\n\n**needs:** {m.get('needs','')}\n")
 out.append("\n## Audit of blind spots\n")
 found = False
-for f in sorted(glob.glob("/tmp/audit_*.md")):
+for f in ([] if NO_AUDIT else sorted(glob.glob("/tmp/audit_*.md"))):
     s = open(f).read()
     parts = re.split(r"(?m)^## ", s)
     for part in parts:
         if part.startswith(P + " ") or part.startswith(P + "\n") or part.startswith(P + " —") or part.startswith(P + ":"):
             out.append("## " + part)
             found = True
-if not found:
+if NO_AUDIT:
+    out.append("(the earlier audits of this property have been worked through in previous rounds; after the missed seeds, do your own audit: split the property statement into clauses, check each has a theorem at full strength and an oracle whose generator reaches it, look for API paths of the anchored code that are outside the model, and extend model + theorems + correspondence there)\n")
+elif not found:
     out.append("(no audit available for this property: do your own — split the property statement into clauses, check each has a theorem and an oracle whose generator reaches it, and look for unmodelled API paths)\n")
 open(f"{D}/GAPS.md", "w").write("\n".join(out))
 print(P, "missed seeds:", [x[0] for x in missed], "audit:", found)
